@@ -279,6 +279,8 @@ func (p *Pipe) chunk(n int) int {
 
 // Read implements transport.Implementation.
 func (p *Pipe) Read(n int) ([]byte, error) {
+	slept := false
+
 	p.mu.Lock()
 
 	for {
@@ -324,18 +326,25 @@ func (p *Pipe) Read(n int) ([]byte, error) {
 		}
 
 		if k := p.chunk(n); k > 0 {
+			// the pacing delay comes BEFORE the bytes are taken and counted: while it lasts they are still on their way
+			// (a position recorded by a concurrent Write must not count bytes the library has not been handed yet)
+			if d := p.ReadDelay; d > 0 && !slept {
+				slept = true
+
+				p.mu.Unlock()
+				time.Sleep(d)
+				p.mu.Lock()
+
+				continue
+			}
+
 			b := make([]byte, k)
 			copy(b, p.out[:k])
 			p.out = p.out[k:]
 			p.delivered += k
 			p.ev("deliver", b)
-			d := p.ReadDelay
 			p.cond.Broadcast()
 			p.mu.Unlock()
-
-			if d > 0 {
-				time.Sleep(d)
-			}
 
 			return b, nil
 		}
